@@ -1121,10 +1121,18 @@ func TestVerif_C02Wire(t *testing.T) {
 	enc := json.NewEncoder(w)
 	sc := bufio.NewScanner(fin)
 	sc.Buffer(make([]byte, 1<<16), 1<<22)
+	// progress marker: tells the runner which case was in flight if the SDK crashes the process
+	prog, _ := os.Create(outp + ".progress")
+	if prog != nil {
+		defer prog.Close()
+	}
 	for sc.Scan() {
 		var c c02Case
 		if err := json.Unmarshal(sc.Bytes(), &c); err != nil {
 			t.Fatalf("bad case: %v", err)
+		}
+		if prog != nil {
+			prog.WriteAt(append(append([]byte{}, sc.Bytes()...), []byte("\n"+strings.Repeat(" ", 4096))...)[:4096], 0)
 		}
 		var o c02Obs
 		switch c.T {
